@@ -52,6 +52,7 @@ type Violation struct {
 // Result is the JSON a worker prints.
 type Result struct {
 	Prop        string           `json:"prop"`
+	Engine      string           `json:"engine"`
 	Scenario    string           `json:"scenario"`
 	Desc        string           `json:"desc"`
 	Bound       int              `json:"bound"`
@@ -169,15 +170,8 @@ func main() {
 	if *replay != "" {
 		os.Exit(doReplay(bin, prop, *replay))
 	}
-	// list the jobs
-	out, err := runCmd(bin, "-list", "-prop", prop)
-	if err != nil {
-		die(2, "listing scenarios: %v\n%s", err, out)
-	}
-	var items []listItem
-	if err := json.Unmarshal(out, &items); err != nil {
-		die(2, "bad scenario list: %v", err)
-	}
+	// list the jobs: a property may have scenarios in the Engine-A worker and
+	// parts in the Engine-B worker
 	total := 75.0
 	if *tier == "thorough" {
 		total = 900.0
@@ -186,38 +180,52 @@ func main() {
 		total = *budget
 	}
 	var jobs []*job
-	for _, it := range items {
-		if *only != "" && !strings.Contains(it.Name, *only) {
-			continue
+	for _, eng := range []string{"A", "B"} {
+		ebin := filepath.Join(bdir, "mcsched")
+		if eng == "B" {
+			ebin = filepath.Join(bdir, "mcseq")
 		}
-		lvl := it.Quick
-		shards := it.QuickShards
-		free := it.FreeQuick
-		if *tier == "thorough" {
-			lvl = it.Thor
-			shards = it.ThorShards
-			free = it.FreeThor
+		out, err := runCmd(ebin, "-list", "-prop", prop)
+		if err != nil {
+			die(2, "listing scenarios: %v\n%s", err, out)
 		}
-		if shards <= 0 {
-			shards = 1
+		var items []listItem
+		if err := json.Unmarshal(out, &items); err != nil {
+			die(2, "bad scenario list: %v", err)
 		}
-		if pi.engine == "A" {
-			if lvl < 0 {
+		for _, it := range items {
+			if *only != "" && !strings.Contains(it.Name, *only) {
 				continue
 			}
-			for s := 0; s < shards; s++ {
-				jobs = append(jobs, &job{bin: bin, name: fmt.Sprintf("%s[b%d,f%d,%d/%d]", it.Name, lvl, free, s, shards),
-					args: []string{"-prop", prop, "-scenario", it.Name, "-tier", *tier, "-bound", fmt.Sprint(lvl), "-fbound", fmt.Sprint(free),
-						"-shard", fmt.Sprint(s), "-nshards", fmt.Sprint(shards)}})
+			lvl := it.Quick
+			shards := it.QuickShards
+			free := it.FreeQuick
+			if *tier == "thorough" {
+				lvl = it.Thor
+				shards = it.ThorShards
+				free = it.FreeThor
 			}
-		} else {
-			if lvl <= 0 {
-				continue
+			if shards <= 0 {
+				shards = 1
 			}
-			for s := 0; s < lvl; s++ {
-				jobs = append(jobs, &job{bin: bin, prop: prop, part: it.Name, name: fmt.Sprintf("%s[%d/%d]", it.Name, s, lvl),
-					args: []string{"-prop", prop, "-part", it.Name, "-tier", *tier,
-						"-shard", fmt.Sprint(s), "-nshards", fmt.Sprint(lvl)}})
+			if eng == "A" {
+				if lvl < 0 {
+					continue
+				}
+				for s := 0; s < shards; s++ {
+					jobs = append(jobs, &job{bin: ebin, name: fmt.Sprintf("%s[b%d,f%d,%d/%d]", it.Name, lvl, free, s, shards),
+						args: []string{"-prop", prop, "-scenario", it.Name, "-tier", *tier, "-bound", fmt.Sprint(lvl), "-fbound", fmt.Sprint(free),
+							"-shard", fmt.Sprint(s), "-nshards", fmt.Sprint(shards)}})
+				}
+			} else {
+				if lvl <= 0 {
+					continue
+				}
+				for s := 0; s < lvl; s++ {
+					jobs = append(jobs, &job{bin: ebin, prop: prop, part: it.Name, name: fmt.Sprintf("%s[%d/%d]", it.Name, s, lvl),
+						args: []string{"-prop", prop, "-part", it.Name, "-tier", *tier,
+							"-shard", fmt.Sprint(s), "-nshards", fmt.Sprint(lvl)}})
+				}
 			}
 		}
 	}
@@ -586,7 +594,7 @@ func aggregate(prop string, pi *propInfo, tier string, seed int, jobs []*job, fi
 		s := scens[r.Scenario]
 		if s == nil {
 			s = &scen{Name: r.Scenario, Desc: r.Desc, Outcomes: map[string]int64{}}
-			if pi.engine == "A" {
+			if r.Engine == "A" {
 				b, f := r.Bound, r.FreeBound
 				s.Bound, s.FreeBound = &b, &f
 			}
@@ -723,6 +731,12 @@ func aggregate(prop string, pi *propInfo, tier string, seed int, jobs []*job, fi
 	} else {
 		cov["distinct_nontrivial"] = nontriv
 		cov["unspecified_skipped"] = skipped
+		if statesN > 0 {
+			// additional Engine-A scenarios of an Engine-B property
+			cov["states"] = statesN
+			cov["transitions"] = trans
+			cov["traces_validated_against_impl"] = execs
+		}
 		if _, ok := cov["rule"]; !ok {
 			cov["rule"] = pi.rule
 		}
